@@ -60,7 +60,7 @@ def lit_encode(data, rng, hostile=True):
         elif ch == "\n":
             out.append(rng.choice(["\\n", "\n", "\\x0a"]) if hostile else "\\n")
         elif ch == "\r":
-            out.append(rng.choice(["\\r", "\\x0d"]))
+            out.append(rng.choice(["\\r", "\\x0d", "\r"]) if hostile else "\\r")
         elif ch == "\t":
             out.append(rng.choice(["\\t", "\t"]))
         elif ch == "'":
